@@ -283,9 +283,11 @@ pub mod ptoken {
         Decimals,
         Bal(Address),
         FailNext,
+        Allow(Address, Address),
     }
 
-    /// Token with settable metadata and a "refuse transfers" switch (no auth: it is a probe).
+    /// Token with the complete standard token interface, settable metadata and a "refuse
+    /// transfers" switch.
     #[contract]
     pub struct ProbeToken;
 
@@ -335,6 +337,64 @@ pub mod ptoken {
             env.storage().persistent().set(&PKey::Bal(from), &(fb - amount));
             let tb: i128 = env.storage().persistent().get(&PKey::Bal(to.clone())).unwrap_or(0);
             env.storage().persistent().set(&PKey::Bal(to), &(tb + amount));
+        }
+        pub fn allowance(env: Env, from: Address, spender: Address) -> i128 {
+            match env.storage().persistent().get::<_, (i128, u32)>(&PKey::Allow(from, spender)) {
+                Some((a, exp)) if exp >= env.ledger().sequence() => a,
+                _ => 0,
+            }
+        }
+        pub fn approve(env: Env, from: Address, spender: Address, amount: i128, expiration_ledger: u32) {
+            from.require_auth();
+            if amount < 0 || (amount > 0 && expiration_ledger < env.ledger().sequence()) {
+                panic!("bad approval");
+            }
+            env.storage().persistent().set(&PKey::Allow(from, spender), &(amount, expiration_ledger));
+        }
+        pub fn transfer_from(env: Env, spender: Address, from: Address, to: Address, amount: i128) {
+            spender.require_auth();
+            if env.storage().instance().get::<_, bool>(&PKey::FailNext).unwrap_or(false) {
+                panic!("probe token refuses");
+            }
+            Self::spend(&env, &from, &spender, amount);
+            Self::debit(&env, &from, amount);
+            let tb: i128 = env.storage().persistent().get(&PKey::Bal(to.clone())).unwrap_or(0);
+            env.storage().persistent().set(&PKey::Bal(to), &(tb + amount));
+        }
+        pub fn burn(env: Env, from: Address, amount: i128) {
+            from.require_auth();
+            Self::debit(&env, &from, amount);
+        }
+        pub fn burn_from(env: Env, spender: Address, from: Address, amount: i128) {
+            spender.require_auth();
+            Self::spend(&env, &from, &spender, amount);
+            Self::debit(&env, &from, amount);
+        }
+    }
+
+    impl ProbeToken {
+        fn debit(env: &Env, from: &Address, amount: i128) {
+            if amount < 0 {
+                panic!("negative");
+            }
+            let fb: i128 = env.storage().persistent().get(&PKey::Bal(from.clone())).unwrap_or(0);
+            if fb < amount {
+                panic!("insufficient");
+            }
+            env.storage().persistent().set(&PKey::Bal(from.clone()), &(fb - amount));
+        }
+        fn spend(env: &Env, from: &Address, spender: &Address, amount: i128) {
+            if amount < 0 {
+                panic!("negative");
+            }
+            let a = Self::allowance(env.clone(), from.clone(), spender.clone());
+            if a < amount {
+                panic!("allowance");
+            }
+            if amount > 0 {
+                let exp = env.storage().persistent().get::<_, (i128, u32)>(&PKey::Allow(from.clone(), spender.clone())).map(|x| x.1).unwrap_or(0);
+                env.storage().persistent().set(&PKey::Allow(from.clone(), spender.clone()), &(a - amount, exp));
+            }
         }
     }
 }
